@@ -196,6 +196,10 @@ class SimulatorWorkerThread(Thread):
         while not self._finalized:
             # wait till wakeup, e.g., to start the simulation
             self.__wakeup_flag.wait()
+            # clear the flag when waking up (and not at the end of the run): a
+            # start() that comes in after the state became STOPPED, but before 
+            # this thread waits again, must not lose its wake-up
+            self.__wakeup_flag.clear()
             self._running = True
             if not self._finalized:
                 if self._job._replication_state != ReplicationState.ENDING:
@@ -219,7 +223,6 @@ class SimulatorWorkerThread(Thread):
                     self._job.fire_timed(self._job.simulator_time,
                         ReplicationInterface.END_REPLICATION_EVENT, None)
                     self._finalized = True
-            self.__wakeup_flag.clear()
             self._running = False
         # end while
     # end run()
